@@ -34,7 +34,32 @@ type gsite struct {
 }
 
 func inModule(f *ssa.Function) bool {
-	return f != nil && f.Pkg != nil && strings.HasPrefix(f.Pkg.Pkg.Path(), modPath) && !isMockPath(f.Pkg.Pkg.Path())
+	pp := pkgPathOf(f)
+	return pp != "" && strings.HasPrefix(pp, modPath) && !isMockPath(pp)
+}
+
+// pkgPathOf: the path of the package that declares f; an instance of a generic function (which go/ssa keeps
+// outside any package) belongs to the package of the function it was instantiated from.
+func pkgPathOf(f *ssa.Function) string {
+	for f != nil {
+		if f.Pkg != nil {
+			return f.Pkg.Pkg.Path()
+		}
+		if o := f.Origin(); o != nil && o != f {
+			f = o
+			continue
+		}
+		if p := f.Parent(); p != nil {
+			f = p
+			continue
+		}
+		// wrappers (bound method values, thunks) are shared by the program: they belong with the method they wrap
+		if f.Synthetic != "" && f.Object() != nil && f.Object().Pkg() != nil {
+			return f.Object().Pkg().Path()
+		}
+		break
+	}
+	return ""
 }
 
 // calleeEnv builds the environment of callee g for call cc made under env.
@@ -55,8 +80,23 @@ func (c *Ctx) calleeEnvV(cc *ssa.CallCommon, g *ssa.Function, env Env, callVal s
 			for i, res := range r.Results {
 				switch rv := res.(type) {
 				case *ssa.Alloc, *ssa.TypeAssert:
+				case *ssa.Call:
+					// what a helper handed back is handed on: the same value under the caller's name (only for
+					// rules that ask for it: most rules name a value after the innermost call that produced it)
+					if !c.nameHandedOn {
+						continue
+					}
 				case *ssa.Extract:
-					if _, isTA := rv.Tuple.(*ssa.TypeAssert); !isTA {
+					switch tv := rv.Tuple.(type) {
+					case *ssa.TypeAssert:
+					case *ssa.Call:
+						if !c.nameHandedOn {
+							continue
+						}
+						if rv.Index == i && len(r.Results) > 1 {
+							ne[tv] = base
+						}
+					default:
 						continue
 					}
 				default:
